@@ -18,7 +18,12 @@ static PPt rnd_pt(Rng& r, const Frame& f) {
 }
 static Frame make_frame(Rng& r, int64_t mag) {
   Frame f; f.grid = 1;
-  int k = (int)r.below(10);
+  int k = (int)r.below(12);
+  if (k >= 10) {                                                                    // small lattice: (2n+1)^2 points with spacing g: touching, collinear and coincident configurations dominate
+    int64_t n = r.range(1, 3); int64_t gmax = std::max<int64_t>(1, mag / (4 * n)); int64_t gsp = r.chance(0.5) ? r.range(1, std::min<int64_t>(gmax, 16)) : r.range(1, gmax);
+    f.grid = gsp; f.ext = n * gsp; int64_t room = mag - f.ext; f.cx = room > 0 && r.chance(0.5) ? snap(r.range(-room, room), gsp) : 0; f.cy = room > 0 && r.chance(0.5) ? snap(r.range(-room, room), gsp) : 0;
+    return f;
+  }
   if (k < 3) { f.ext = mag; f.cx = f.cy = 0; }                                    // full range
   else if (k < 6) { f.ext = std::max<int64_t>(1, std::min<int64_t>(mag / 2, r.range(2, 64))); f.cx = r.range(-(mag - f.ext), mag - f.ext); f.cy = r.range(-(mag - f.ext), mag - f.ext); } // tiny window somewhere
   else if (k < 8) { f.ext = std::max<int64_t>(1, mag / 2); f.cx = r.chance(0.5) ? mag / 2 : -(mag / 2); f.cy = r.chance(0.5) ? mag / 2 : -(mag / 2); } // hugging a corner of the range
@@ -368,6 +373,20 @@ static int append_entry(Rng& r, Plan& pl, int kind, int task, int slot0, const s
       pp.push_back(gen_base(r, f, (int)r.below(7), std::min(maxpts, 24)));
       for (PPath& p : pp) { for (PPt& q : p) { q.x = std::max(-m, std::min(m, q.x)); q.y = std::max(-m, std::min(m, q.y)); } add_z(r, p, z); }
       Op o = mkop("x_mink64", task); o.i = {(int64_t)r.below(2), (int64_t)r.below(2), (int64_t)(r.chance(0.1) ? r.below(4) : 0)}; setP(o, 0, pp); push(o); return 0; }
+    case 16: {  // open-path clipping: open subjects and closed clips drawn in one (often lattice) frame, all output kinds
+      MagClass mc = pick_mag(r, cfg, true); Frame f = make_frame(r, mc.mag);
+      if (r.chance(0.6)) { int64_t n = r.range(1, 3), gsp = r.range(1, std::max<int64_t>(1, std::min<int64_t>(mc.mag / 16, 50))); f.grid = gsp; f.ext = n * gsp; f.cx = 0; f.cy = 0; }
+      Op n = mkop("new_c64", task); n.o = slot0; push(n);
+      if (z) { Op o = mkop("setz", task); o.o = slot0; o.i = {(int64_t)r.range(0, 2)}; push(o); }
+      if (r.chance(0.3)) { Op o = mkop("pc", task); o.o = slot0; o.i = {(int64_t)r.below(2)}; push(o); }
+      auto open_paths = [&]() { PPaths pp; int np = (int)r.range(1, 3); for (int i = 0; i < np; ++i) { PPath p; int len = (int)r.range(2, 6); for (int k = 0; k < len; ++k) p.push_back(rnd_pt(r, f)); add_z(r, p, z); pp.push_back(p); } return pp; };
+      { Op o = mkop("c_add", task); o.o = slot0; o.i = {1}; setP(o, 0, open_paths()); push(o); }
+      if (r.chance(0.4)) { Op o = mkop("c_add", task); o.o = slot0; o.i = {0}; setP(o, 0, gen_paths(r, mc.mag, 2, 8, z, &f)); push(o); }
+      { Op o = mkop("c_add", task); o.o = slot0; o.i = {2}; setP(o, 0, gen_paths(r, mc.mag, 3, 8, z, &f)); push(o); }
+      int ne = (int)r.range(1, 2);
+      for (int i = 0; i < ne; ++i) { Op o = mkop("c_exec", task); o.o = slot0; o.i = {(int64_t)r.range(1, 4), (int64_t)r.below(4), (int64_t)(r.chance(0.5) ? 1 : 3), (int64_t)r.below(2)}; push(o); }
+      if (r.chance(0.7)) { Op d = mkop("del", task); d.o = slot0; push(d); }
+      return 1; }
     default: {  // 15: container lifetimes: one container, two clippers, interleaved executes, both destruction orders
       MagClass mc = pick_mag(r, cfg, true); Frame f = make_frame(r, mc.mag);
       int k = slot0, c1 = slot0 + 1, c2 = slot0 + 2;
@@ -384,7 +403,7 @@ static int append_entry(Rng& r, Plan& pl, int kind, int task, int slot0, const s
       return 3; }
   }
 }
-static const int N_ENTRY_KINDS = 16;
+static const int N_ENTRY_KINDS = 17;
 
 // ------------------------------------------------------------------ C10
 Plan gen_c10(uint64_t seed, uint64_t run, const std::string& cfg) {
